@@ -15,7 +15,7 @@ Inductive spec : Type :=
 | SSwap (r : nat) | SCSUM (r : nat) | SSubSwap (r i j : nat)
 | SIdentity (rx : list nat) | SACP (rx : list nat) | SDiag (n : nat)
 | SMPRY (n t : nat) | SMPRZ (n t : nat) | SPauliZ (n : nat) | SRSU3 (idx : nat)
-| SCKM (fixed : bool) | SCKMdg (fixed : bool)   (* fixed: the gradient of fixes/D14.patch *)
+| SCKM (fixed : bool) | SCKMdg (fixed : bool)   (* fixed: the gradient of fixes/C18-F1.patch *)
 | SControlled (s : spec) (nc : nat) (cr : ctrl_radixes) (cl : ctrl_levels)
 | SDagger (s : spec)
 | SPower (s : spec) (k : Z)
